@@ -138,7 +138,7 @@ Lemma deliver_m_spec k preload lim pas cfgh items chb ops cancel fuel :
   init_fails ops = false ->
   deliver_m k preload lim pas cfgh items chb ops cancel fuel =
     (let '(del, o, cl) := deliver_c k preload lim pas cfgh items chb cancel fuel in
-     (map (with_req ops) del, o, cl)).
+     (map (with_req ops) del, end_with ops o, cl)).
 Proof.
   intros Hi. unfold deliver_m. rewrite Hi.
   pose proof (deliver_c_in k preload lim pas cfgh items chb cancel fuel) as Hin.
@@ -160,10 +160,10 @@ Lemma c14_mw k preload lim pas cfgh items chb ops :
   cs <> [] -> init_fails ops = false ->
   (src <> [] ->
       (forall b fuel, bound lim pas (length src) = Some b -> C * (b + n + 1) < fuel ->
-         runm None fuel = (map (with_req ops) (cyc_c src b), Ok, true))
+         runm None fuel = (map (with_req ops) (cyc_c src b), end_with ops Ok, true))
       /\ (forall cancel fuel, exists j,
             fst (fst (runm cancel fuel)) = map (with_req ops) (cyc_c src j) /\ le_opt j (bound lim pas (length src))))
-  /\ (src = [] -> forall fuel, C * (n + 1) < fuel -> runm None fuel = ([], Failed ENoAmmo, true)).
+  /\ (src = [] -> forall fuel, C * (n + 1) < fuel -> runm None fuel = ([], end_with ops (Failed ENoAmmo), true)).
 Proof.
   intros cs src n C runm Hne Hi.
   destruct (c14_content k preload lim pas cfgh items chb Hne) as (_ & Hsome & Hnone).
